@@ -422,6 +422,8 @@ class Base:
             return z3.Or(*ms) if ms else False
         if isinstance(v, (VObj, VFunc, VUnique)):
             return True
+        if type(v).__name__ == "VOpaque":
+            return z3.FreshConst(Bool, "opaque_truth")
         if isinstance(v, F):
             t = self.f_to_term(v)
             if t is not None:
